@@ -45,7 +45,13 @@ def run_streams(out, mod, binary, tier, seed, only_request=None):
             if only_request is not None and req != only_request:
                 continue
             model, spec = fw.split_answer(ans)
-            j = st["judge"](req, impl, model, spec)
+            if impl == "HANG":
+                # the watchdog of the harness (harness/src/watch.rs): the real code did not come back from this input
+                j = {"corr": False, "oracle": False, "key": req, "cats": ["hang"],
+                     "what": "the implementation did not return from this input within the time limit (%s s): it hangs"
+                             % os.environ.get("HCLV_HANG_SECS", "60")}
+            else:
+                j = st["judge"](req, impl, model, spec)
             out.case(st["name"], req, j.get("key"), sample=(i % max(1, len(cases) // 3) == 0))
             for c in j.get("cats", ()):
                 out.count(st["name"] + ":" + c)
